@@ -314,7 +314,9 @@ func (g *GcsEmu) handleGcsMediaRequest(baseUrl HttpBaseUrl, w http.ResponseWrite
 			buf := bytes.NewBuffer(contents)
 			gzipReader, err := gzip.NewReader(buf)
 			if err != nil {
+				// the object is marked as gzip but its bytes are not: there is no reader to copy from
 				g.gapiError(w, http.StatusInternalServerError, fmt.Sprintf("failed to gunzip from %s/%s: %s", bucket, filename, err))
+				return
 			}
 			if _, err := io.Copy(w, gzipReader); err != nil {
 				g.gapiError(w, http.StatusInternalServerError, fmt.Sprintf("failed to copy+gunzip from %s/%s: %s", bucket, filename, err))
